@@ -34,6 +34,9 @@ def main(tier):
         add(4, 2, taxo.forests(4), split=True, timeout=900)
         add(5, 2, [[-1, 0, 1, 2, 3], [-1, 0, 1, 1, 3], [-1, 0, 0, 1, 2], [-1, -1, 0, 1, 3]], split=True, timeout=1800)
         add(5, 1, taxo.forests(5), split=False, timeout=900)
+    jobs.append(dict(path=gen_c03.make(2, 1), fname='_c03_near', params={'shape': [-1, 0]}, timeout=400, label='near ties: two genomes whose distances differ by one ulp .. 1e-5 (binary64 and float32)',
+                     bounds={'distances': '11 pooled values: 0.5 / 0.25 / 1.0 and neighbours at one ulp, 5e-6 and 2e-5 relative distance, 0, 1e-9', 'genomes': 2, 'placement': 'every assignment to genus / species',
+                             'thresholds': 'pool of 4 on both taxa', 'oracle': 'exact rational comparison'}))
     jobs.append(dict(path=gen_c03.make(2, 1), fname='_c03_floats', params={'shape': [-1, 0]}, timeout=200, label='float boundary: distances within one ulp of a threshold (binary64 and float32)',
                      bounds={'thresholds': 'pool 0.1 / 0.3 / 0.5 / 0.7 on a two-taxon lineage', 'distances': 'the threshold, its float32 rounding, and one step above / below each, as float64 and float32'}))
     jobs.sort(key=lambda j: -j['timeout'])
